@@ -32,6 +32,11 @@ func (lruEngine) Corpus() []Case {
 		{Ops: []string{"new 3", "set 61 1", "set 62 2", "set 63 3", "set 61 4", "set 64 5", "keys", "get 62", "get 61"}},
 		// refresh by Has
 		{Ops: []string{"new 2", "set 61 1", "set 62 2", "has 61", "set 63 3", "keys"}},
+		// refresh by a Get / Has that overlaps with a reader of the cache: the key read survives the next insert
+		{Ops: []string{"new 2", "set 61 1", "set 62 2", "rget 61", "keys", "set 63 3", "keys", "get 61", "get 62"}, Tag: "corpus-held"},
+		{Ops: []string{"new 2", "set 61 1", "set 62 2", "rhas 61", "set 63 3", "keys", "rget 64", "rhas 64", "rget 62", "keys"}, Tag: "corpus-held"},
+		{Ops: []string{"new 3", "set 61 1", "set 62 2", "set 63 3", "rget 62", "rget 61", "set 64 4", "keys", "rget 63", "len"}, Tag: "corpus-held"},
+		{Ops: []string{"new 0", "rget 61", "set 61 1", "rget 61", "rhas 61", "keys"}, Tag: "corpus-held"},
 	}
 }
 
@@ -68,9 +73,9 @@ func (lruEngine) Gen(r *Rand, tier string) Case {
 			val++
 			ops = append(ops, fmt.Sprintf("set %s %d", k, val))
 		case x < 12:
-			ops = append(ops, "get "+k)
+			ops = append(ops, lruHeldOp(r, "get")+" "+k)
 		case x < 14:
-			ops = append(ops, "has "+k)
+			ops = append(ops, lruHeldOp(r, "has")+" "+k)
 		case x < 16:
 			ops = append(ops, "del "+k)
 		case x < 17:
@@ -126,6 +131,31 @@ func (lruEngine) Run(ops []string) (ans []string, oracle []string) {
 				return fmt.Sprintf("some %d", vals[rt])
 			case "has":
 				return b2s(c.Has(mustUnhx(f[1])))
+			case "rget", "rhas": // the same calls while another goroutine is inside a read section of the cache
+				lk := lruLockOf(c)
+				if lk == nil {
+					return "unsupported"
+				}
+				k := mustUnhx(f[1])
+				if f[0] == "rhas" {
+					var has bool
+					if !lruWhileRead(lk, func() { has = c.Has(k) }) {
+						return "unsupported"
+					}
+					return b2s(has)
+				}
+				var rt *rux.Route
+				var ok bool
+				if !lruWhileRead(lk, func() { rt, ok = c.Get(k) }) {
+					return "unsupported"
+				}
+				if !ok {
+					if rt != nil {
+						return "none-with-route"
+					}
+					return "none"
+				}
+				return fmt.Sprintf("some %d", vals[rt])
 			case "del":
 				return b2s(c.Delete(mustUnhx(f[1])))
 			case "len":
